@@ -35,6 +35,26 @@ def render(rdflib) -> str:
     out.append("Definition infnan_types : list (list N) := [" + ";\n  ".join(_s(x) for x in T._NUMERIC_INF_NAN_LITERAL_TYPES) + "].")
     out.append("(* keys of rdflib.term.XSDToPython other than None: the recognised datatype IRIs *)")
     out.append("Definition recognised_types : list (list N) := [" + ";\n  ".join(_s(x) for x in T.XSDToPython if x is not None) + "].")
+    # the numeric datatypes whose value is a Python int, with the range outside which the literal is ill-typed
+    # (found by probing the well-formedness checker of the datatype)
+    rows = []
+    cands = sorted({0, 1, -1} | {s * (2 ** k) + d for k in (7, 8, 15, 16, 31, 32, 63, 64) for s in (1, -1) for d in (-1, 0, 1)})
+    for dt in T._NUMERIC_LITERAL_TYPES:
+        if T.XSDToPython.get(dt) is not int:
+            continue
+        chk = T._check_well_formed_types.get(dt, T._well_formed_by_value)
+
+        def ok(v, chk=chk):
+            return bool(chk(str(v), v))
+        good = [c for c in cands if ok(c)]
+        lo = None if ok(-10 ** 40) else min(good)
+        hi = None if ok(10 ** 40) else max(good)
+        # the accepted set must be exactly the interval (otherwise the table does not describe the checker)
+        assert all(ok(c) == ((lo is None or c >= lo) and (hi is None or c <= hi)) for c in cands), dt
+        fmt = lambda v: "None" if v is None else f"(Some ({v})%Z)"
+        rows.append(f"({_s(dt)}, ({fmt(lo)}, {fmt(hi)}))")
+    out.append("(* members of _NUMERIC_LITERAL_TYPES whose XSDToPython converter is int, with the bounds of their well-formedness checker *)")
+    out.append("Definition int_value_types : list (list N * (option Z * option Z)) := [" + ";\n  ".join(rows) + "].")
     out.append(f"Definition dawg_collation : bool := {'true' if rdflib.DAWG_LITERAL_COLLATION else 'false'}.")
     out.append(f"Definition normalize_literals : bool := {'true' if rdflib.NORMALIZE_LITERALS else 'false'}.")
     return "\n".join(out) + "\n"
